@@ -15,3 +15,16 @@ mod types;
 pub use decoder::{DecoderOption, H263State};
 pub use error::{Error, Result};
 pub use types::{PictureOption, PictureTypeCode};
+
+#[cfg(feature = "verif")]
+pub mod verif {
+    //! Internals re-exported for the external verification harness.
+    //! Compiled only with the off-by-default `verif` feature.
+    pub use crate::decoder::{
+        gather, idct_channel, inverse_rle, mv_decode, predict_candidate, DecodedPicture,
+    };
+    pub use crate::parser::verif as tables;
+    pub mod types {
+        pub use crate::types::*;
+    }
+}
